@@ -5,6 +5,33 @@ Import ListNotations.
 Open Scope Z_scope.
 Ltac Zify.zify_post_hook ::= Z.to_euclidean_division_equations.
 
+(* ---------- take ---------- *)
+Lemma take_ext {T} (x y : list T) idx : length x = length y ->
+  (forall j, In j idx -> 0 <= j -> nth_error x (Z.to_nat j) = nth_error y (Z.to_nat j)) ->
+  NP.take x idx = NP.take y idx.
+Proof.
+  intros Hl H. unfold NP.take. induction idx as [|j idx IH]; [reflexivity|]. cbn [flat_map].
+  rewrite IH by (intros j' Hj'; apply H; right; exact Hj'). f_equal.
+  destruct (0 <=? j) eqn:E.
+  - rewrite (H j (or_introl eq_refl)) by lia. reflexivity.
+  - destruct (nth_error x (Z.to_nat j)); destruct (nth_error y (Z.to_nat j)); reflexivity.
+Qed.
+
+
+Lemma take_length_where {A} L (x : list A) (days : list Z) c : length x = length days ->
+  length (NP.take x (days_indices_in_window L days c)) = length (days_indices_in_window L days c).
+Proof.
+  intro Hl. unfold NP.take.
+  assert (G : forall idx, (forall j, In j idx -> 0 <= j < Z.of_nat (length x)) ->
+     length (flat_map (fun i => match nth_error x (Z.to_nat i) with Some v => if 0 <=? i then [v] else [] | None => [] end) idx) = length idx).
+  { induction idx as [|j idx IH]; intro Hr; [reflexivity|]. cbn [flat_map]. rewrite app_length, IH by (intros j' Hj'; apply Hr; right; exact Hj').
+    specialize (Hr j (or_introl eq_refl)).
+    destruct (nth_error x (Z.to_nat j)) eqn:E; [|apply nth_error_None in E; lia].
+    destruct (0 <=? j) eqn:E0; [reflexivity|lia]. }
+  apply G. intros j Hj. apply days_window_spec in Hj. rewrite Hl. tauto.
+Qed.
+
+
 Section DC.
 Variable V : Type.
 Variables (L S : Z).
@@ -21,18 +48,6 @@ Proof.
   intros Hd Hl. destruct (driver_spec V L S dA Wc HS HSL Hd Hodd Hl) as (out & E & Hlen & H).
   exists out. split; [exact E|]. split; [exact Hlen|]. intros k Hk.
   destruct (H k Hk) as (c & v & _ & _ & _ & _ & _ & Hv). exists v. exact Hv.
-Qed.
-
-(* ---------- take ---------- *)
-Lemma take_ext {T} (x y : list T) idx : length x = length y ->
-  (forall j, In j idx -> 0 <= j -> nth_error x (Z.to_nat j) = nth_error y (Z.to_nat j)) ->
-  NP.take x idx = NP.take y idx.
-Proof.
-  intros Hl H. unfold NP.take. induction idx as [|j idx IH]; [reflexivity|]. cbn [flat_map].
-  rewrite IH by (intros j' Hj'; apply H; right; exact Hj'). f_equal.
-  destruct (0 <=? j) eqn:E.
-  - rewrite (H j (or_introl eq_refl)) by lia. reflexivity.
-  - destruct (nth_error x (Z.to_nat j)); destruct (nth_error y (Z.to_nat j)); reflexivity.
 Qed.
 
 (* ---------- circular distance over the 366-day cycle ---------- *)
@@ -66,19 +81,6 @@ Hypothesis Hlf : length fut = length dfut.  Hypothesis Hlf' : length fut' = leng
 Hypothesis HL183 : L / 2 + S / 2 < 183.
 
 Definition near (days : list Z) (j : Z) (d : Z) : Prop := circ (nth (Z.to_nat j) days 0) d <= L / 2 + S / 2.
-
-Lemma take_length_where {A} (x : list A) (days : list Z) c : length x = length days ->
-  length (NP.take x (days_indices_in_window L days c)) = length (days_indices_in_window L days c).
-Proof.
-  intro Hl. unfold NP.take.
-  assert (G : forall idx, (forall j, In j idx -> 0 <= j < Z.of_nat (length x)) ->
-     length (flat_map (fun i => match nth_error x (Z.to_nat i) with Some v => if 0 <=? i then [v] else [] | None => [] end) idx) = length idx).
-  { induction idx as [|j idx IH]; intro Hr; [reflexivity|]. cbn [flat_map]. rewrite app_length, IH by (intros j' Hj'; apply Hr; right; exact Hj').
-    specialize (Hr j (or_introl eq_refl)).
-    destruct (nth_error x (Z.to_nat j)) eqn:E; [|apply nth_error_None in E; lia].
-    destruct (0 <=? j) eqn:E0; [reflexivity|lia]. }
-  apply G. intros j Hj. apply days_window_spec in Hj. rewrite Hl. tauto.
-Qed.
 
 Theorem window_locality k :
   0 <= k < Z.of_nat (length dfut) ->
